@@ -32,6 +32,41 @@ package actionlint
 //@   ensures istype(n, "*LogicalOpNode") ==> semavisited[dyn(n, "*LogicalOpNode").Left] && semavisited[dyn(n, "*LogicalOpNode").Right]
 //@   ensures istype(n, "*NotOpNode") ==> semavisited[dyn(n, "*NotOpNode").Operand]
 
+// C06, merging (branches of ||/&&, matrix rows, include): merging with `any` gives `any`, merging an
+// open object gives an open object and merging an array of `any` gives an array of `any` - the merged
+// type is never more precise than either side, so it cannot reject what one side would accept
+//@ func (AnyType).Merge
+//@   props C06
+//@   ensures istype(result, "AnyType")
+//@ func (NullType).Merge
+//@   props C06
+//@   ensures istype(other, "AnyType") ==> istype(result, "AnyType")
+//@ func (NumberType).Merge
+//@   props C06
+//@   ensures istype(other, "AnyType") ==> istype(result, "AnyType")
+//@ func (BoolType).Merge
+//@   props C06
+//@   ensures istype(other, "AnyType") ==> istype(result, "AnyType")
+//@ func (StringType).Merge
+//@   props C06
+//@   ensures istype(other, "AnyType") ==> istype(result, "AnyType")
+//@ func (*ArrayType).Merge
+//@   props C06
+//@   ensures !istype(other, "*ArrayType") ==> istype(result, "AnyType")
+//@   ensures istype(other, "*ArrayType") && (istype(ty.Elem, "AnyType") || istype(dyn(other, "*ArrayType").Elem, "AnyType")) ==> istype(result, "*ArrayType") && istype(dyn(result, "*ArrayType").Elem, "AnyType")
+//@ func (*ObjectType).Merge
+//@   props C06
+//@   ensures !istype(other, "*ObjectType") ==> istype(result, "AnyType")
+//@   ensures istype(other, "*ObjectType") && old(ty.Mapped != nil || dyn(other, "*ObjectType").Mapped != nil) ==> istype(result, "*ObjectType") && dyn(result, "*ObjectType").Mapped != nil
+//@   loop "range other.Props":
+//@     invariant old(ty.Mapped != nil || other.Mapped != nil) ==> mapped != nil
+//@ func (*ObjectType).IsLoose
+//@   props C06
+//@   ensures result == istype(ty.Mapped, "AnyType")
+//@ func (*ObjectType).IsStrict
+//@   props C06
+//@   ensures result == (ty.Mapped == nil)
+
 //@ func (*ExprSemanticsChecker).checkObjectDeref
 //@   props C12 C11
 //@   ensures semavisited[n.Receiver]
